@@ -1,6 +1,6 @@
 # Table consumed by gen_manifest.py.  One chk(...) per claimed property.
 NOTES = ("Technique family: deterministic simulation with fault injection only; six properties are pure functions of their input and are listed as not applicable (DESIGN.md section 7). "
-         "Genuine defects found by the checks are recorded in known_findings.json (fixed: F1-F12 as fix: commits in /repo; known: K2).")
+         "Genuine defects found by the checks are recorded in known_findings.json (fixed: F1-F12 as fix: commits in /repo; known: K2, K3).")
 
 chk("C06",
     "deterministic simulation: seeded operation histories (edges, marks, cycle detection, pickle restart) on the real EquivalenceDB vs a reachability reference model",
@@ -53,7 +53,7 @@ chk("C04",
 chk("C05",
     "deterministic simulation: seeded insertion/query histories into the real default and forget rule DBs (queries between arbitrary insertions) and seeded rule dictionaries into every tree finder under controlled clock and random source, vs greatest-fixed-point / bottom-up references collapsed by SCC, a tree validator and brute-force minimum tree size",
     "Seeded exploration of histories, random-source policies and minimisation-loop lengths.",
-    "Trusted: dsim/ref/trees.py, dsim/ref/graph.py. <= 10 labels.",
+    "Trusted: dsim/ref/trees.py, dsim/ref/graph.py. Machine layers <= 10 labels; layer 'search' checks has_specification and the verified marks of real simulated searches (default / forget DB) against the same references on the recorded rules.",
     "6.5")
 
 chk("C14",
@@ -74,7 +74,7 @@ chk("C19",
 chk("C13",
     "deterministic simulation: the two searchers are driven through seeded pre-expansion prefixes with faults (levels, time-limit interrupts at chosen packets via the simulated clock, pickle restarts) before being handed to either finder variant; totality, C01/C02 validators on both members and Isomorphism.check in both directions",
     "Seeded exploration; the input dimension (pairs of classes and packs) dominates, the schedule dimension is the hand-over state of the two stateful searchers.",
-    SEARCH_NOTE + " Atom-only verification and the default rule DB, as the finder requires. Known finding K2 is reported as KNOWN-FINDING.", "6.13")
+    SEARCH_NOTE + " Atom-only verification and the default rule DB, as the finder requires. Known findings K2 and K3 are reported as KNOWN-FINDING.", "6.13")
 
 chk("C08",
     "deterministic simulation with the random source under the simulator's control: every outcome of every sampler decision is enumerated (scripted SimRandom at the library's randint / random seams) - per rule with token sub-samplers, and as a depth-first exploration of the whole decision tree of the root sampler with exact rational probabilities - on specifications produced by simulated searches",
